@@ -326,6 +326,25 @@ Fixpoint pb_loop (md : mdstore) (s : svc) (eid descr : str) (url idx : option st
       end
   end.
 
+(* the list of bindings the loop walks: the argument, else the request's
+   ProtocolBinding, else the configured preference for the service *)
+Definition binding_list (c : config) (s : svc) (bindings : option (list str))
+           (req : option request) : result (list str) :=
+  match bindings with
+  | Some l => Ok l
+  | None =>
+      match req with
+      | Some r =>
+          match rq_pbind r with
+          | Missing => Err E_Attribute
+          | Has pb => if opt_truthy pb
+                      then Ok (match pb with Some b => [b] | None => [] end)
+                      else preferred (cf_preferred c) s
+          end
+      | None => preferred (cf_preferred c) s
+      end
+  end.
+
 (* Entity.pick_binding(service, bindings, descr_type, request, entity_id).
    A SamlBase instance is always truthy. *)
 Definition pick_binding_with (both : bool) (c : config) (md : mdstore) (s : svc)
@@ -335,20 +354,7 @@ Definition pick_binding_with (both : bool) (c : config) (md : mdstore) (s : svc)
              | Some r => if py_truthy entity_id then Ok entity_id else request_entity r
              | None => Ok entity_id
              end);
-  do bl <- (match bindings with
-            | Some l => Ok l
-            | None =>
-                match req with
-                | Some r =>
-                    match rq_pbind r with
-                    | Missing => Err E_Attribute
-                    | Has pb => if opt_truthy pb
-                                then Ok (match pb with Some b => [b] | None => [] end)
-                                else preferred (cf_preferred c) s
-                    end
-                | None => preferred (cf_preferred c) s
-                end
-            end);
+  do bl <- binding_list c s bindings req;
   let descr := default_descr c descr_type in
   let ui := match req with Some r => read_url_index both r | None => (None, None) end in
   pb_loop md s eid descr (fst ui) (snd ui) bl.
